@@ -488,6 +488,67 @@ fn run_close(c: &(usize, u8, u8), lx: &mut Local) {
     }
 }
 
+/// IEEE semantics of the documented formulas on infinite elements and overflowing squares: all terms
+/// of the sums are non-negative (or NaN), so the result is NaN iff a term is NaN, +inf iff a term or
+/// the sum overflows, whatever the order of summation.
+fn run_nonfinite<T: num_traits::Float + Debug + std::ops::AddAssign + num_traits::Signed + Send + Sync + 'static>(da: &[u8], db: &[u8], name: &str, big: T, lx: &mut Local) {
+    let tab = [T::zero(), T::one(), big, -big, T::infinity(), T::neg_infinity()];
+    let a: Vec<T> = da.iter().map(|&d| tab[d as usize]).collect();
+    let b: Vec<T> = db.iter().map(|&d| tab[d as usize]).collect();
+    let n = T::from(a.len()).unwrap();
+    lx.single(|lx| {
+        let (aa, ab) = (Array1::from(a.clone()), Array1::from(b.clone()));
+        let d: Vec<T> = a.iter().zip(&b).map(|(x, y)| *x - *y).collect();
+        let any_nan = d.iter().any(|x| x.is_nan());
+        let sq = d.iter().fold(T::zero(), |s, x| s + *x * *x);
+        let l1 = d.iter().fold(T::zero(), |s, x| s + x.abs());
+        let same = |got: T, want: T| -> bool {
+            if want.is_nan() {
+                got.is_nan()
+            } else if want.is_infinite() || got.is_infinite() || got.is_nan() {
+                got == want
+            } else {
+                (got - want).abs() <= want.abs() * T::epsilon() * T::from(16.0).unwrap()
+            }
+        };
+        let ctx = || format!("[{}] a = {:?}, b = {:?}", name, a, b);
+        let mut obs = Vec::new();
+        let r = guarded(|| (aa.sq_l2_dist(&ab), aa.l1_dist(&ab), aa.linf_dist(&ab), aa.l2_dist(&ab), aa.mean_abs_err(&ab), aa.mean_sq_err(&ab), aa.root_mean_sq_err(&ab), aa.peak_signal_to_noise_ratio(&ab, T::one())));
+        match r {
+            Err(m) => lx.fail("C09/failed", || format!("panicked: {}; {}", m, ctx())),
+            Ok((Ok(gsq), Ok(gl1), Ok(glinf), Ok(gl2), Ok(gmae), Ok(gmse), Ok(grmse), Ok(gpsnr))) => {
+                lx.check(same(gsq, sq), "C09/sq-l2", || format!("sq_l2_dist = {:?}, expected {:?}; {}", gsq, sq, ctx()));
+                lx.check(same(gl1, l1), "C09/l1", || format!("l1_dist = {:?}, expected {:?}; {}", gl1, l1, ctx()));
+                if !any_nan {
+                    let linf = d.iter().fold(T::zero(), |m, x| if x.abs() > m { x.abs() } else { m });
+                    lx.check(same(glinf, linf), "C09/linf", || format!("linf_dist = {:?}, expected {:?}; {}", glinf, linf, ctx()));
+                }
+                let sq64 = sq.to_f64().unwrap();
+                let l164 = l1.to_f64().unwrap();
+                let n64 = n.to_f64().unwrap();
+                let same64 = |got: f64, want: f64| -> bool {
+                    if want.is_nan() {
+                        got.is_nan()
+                    } else if want.is_infinite() || !got.is_finite() {
+                        got == want
+                    } else {
+                        (got - want).abs() <= want.abs() * 1e-6 + 1e-300
+                    }
+                };
+                lx.check(same64(gl2, sq64.sqrt()), "C09/l2", || format!("l2_dist = {:?}, expected sqrt({:?}); {}", gl2, sq64, ctx()));
+                lx.check(same64(gmae, l164 / n64), "C09/mean-abs-err", || format!("mean_abs_err = {:?}, expected {:?}/{}; {}", gmae, l164, n64, ctx()));
+                lx.check(same64(gmse, sq64 / n64), "C09/mean-sq-err", || format!("mean_sq_err = {:?}, expected {:?}/{}; {}", gmse, sq64, n64, ctx()));
+                lx.check(same64(grmse, (sq64 / n64).sqrt()), "C09/root-mean-sq-err", || format!("root_mean_sq_err = {:?}; {}", grmse, ctx()));
+                let psnr = 10.0 * (1.0 / (sq64 / n64)).log10();
+                lx.check(same64(gpsnr, psnr), "C09/psnr", || format!("peak_signal_to_noise_ratio = {:?}, expected {:?}; {}", gpsnr, psnr, ctx()));
+                obs.push((gsq.to_f64().unwrap().to_bits(), gl1.to_f64().unwrap().to_bits(), gpsnr.to_bits()));
+            }
+            Ok(other) => lx.fail("C09/failed", || format!("an error was returned: {:?}; {}", other.0.is_ok(), ctx())),
+        }
+        hash_of(&obs)
+    });
+}
+
 fn main() {
     let mut rep = Report::new("C09");
     rep.rule = "case = (operand a, operand b over a 4-value alphabet, element type) with a rotating stride pair (1-D); (shape, layout of a, layout of b, fill, ownership pair, type) in n-D; non-trivial = at least 2 elements".into();
@@ -598,6 +659,18 @@ fn main() {
                 2 => runn::<f64>(c, lx),
                 _ => runn::<BigInt>(c, lx),
             }
+        },
+    );
+    // infinite elements and squares that overflow
+    let nf = (1..=3usize).flat_map(|n| sequences(n, 6).flat_map(move |a| sequences(n, 6).map(move |b| (a.clone(), b))));
+    rep.run_sub(
+        "non-finite-and-overflow",
+        "all pairs of float arrays of length 1..=3 over {0, 1, +-BIG, +-inf} (BIG = 1e200 for f64, 1e30 for f32: its square overflows): every measure against the IEEE value of its documented formula (NaN iff a difference is inf - inf, +inf iff a term is infinite or overflows; psnr -inf / NaN accordingly)",
+        nf,
+        |(a, b), lx| {
+            lx.nontrivial(a.iter().chain(b.iter()).any(|&d| d >= 2));
+            run_nonfinite::<f64>(a, b, "f64", 1e200, lx);
+            run_nonfinite::<f32>(a, b, "f32", 1e30, lx);
         },
     );
     rep.finish();
